@@ -10,6 +10,7 @@ mod matcher;
 mod c04;
 mod c05;
 mod c06;
+mod c07;
 mod docgen;
 mod c08;
 mod proc;
@@ -29,6 +30,7 @@ fn property(id: &str) -> Option<Property> {
         "C04" => c04::property(),
         "C05" => c05::property(),
         "C06" => c06::property(),
+        "C07" => c07::property(),
         "C08" => c08::property(),
         "C11" => c11::property(),
         "C16" => c16::property(),
